@@ -247,3 +247,36 @@ Proof.
   intros E Hg. rewrite !mean_grp_at_spec by exact Hg. rewrite !mean_spec_abstract.
   now rewrite (members_cells nd1 nd2 xx1 xx2 groups g E).
 Qed.
+
+(** ** locality: an output cell is a function of its own window, wherever the window sits *)
+Lemma rolling_at_local xx yy ws nd ii jj :
+  (ws <= ii + 1)%nat -> (ws <= jj + 1)%nat -> window xx ii ws = window yy jj ws ->
+  rolling_at xx ws nd ii = rolling_at yy ws nd jj.
+Proof.
+  intros Hi Hj H. unfold rolling_at.
+  destruct (Nat.ltb_spec (ii + 1) ws); [lia|]. destruct (Nat.ltb_spec (jj + 1) ws); [lia|]. now rewrite H.
+Qed.
+
+Lemma window_prefix pre xx ws ii :
+  (ws <= ii + 1)%nat -> window (pre ++ xx) (length pre + ii) ws = window xx ii ws.
+Proof.
+  intros H. unfold window. f_equal. rewrite skipn_app.
+  rewrite skipn_all2 by lia. cbn [app]. f_equal. lia.
+Qed.
+
+(** history before the window is irrelevant: prepending any earlier data leaves every complete-window sum unchanged *)
+Theorem rolling_at_prefix pre xx ws nd ii :
+  (ws <= ii + 1)%nat -> rolling_at (pre ++ xx) ws nd (length pre + ii) = rolling_at xx ws nd ii.
+Proof. intros H. apply rolling_at_local; [lia|lia|now apply window_prefix]. Qed.
+
+(** the future is irrelevant as well: appending later data changes no earlier output *)
+Theorem rolling_at_suffix xx post ws nd ii :
+  (ii < length xx)%nat -> rolling_at (xx ++ post) ws nd ii = rolling_at xx ws nd ii.
+Proof.
+  intros H. unfold rolling_at. destruct (Nat.ltb_spec (ii + 1) ws) as [|Hw]; [reflexivity|].
+  replace (window (xx ++ post) ii ws) with (window xx ii ws); [reflexivity|].
+  unfold window. rewrite skipn_app, firstn_app.
+  replace (ii + 1 - ws - length xx)%nat with 0%nat by lia. cbn [skipn].
+  replace (ws - length (skipn (ii + 1 - ws) xx))%nat with 0%nat by (rewrite skipn_length; lia).
+  cbn [firstn]. now rewrite app_nil_r.
+Qed.
